@@ -61,6 +61,15 @@ def build(case):
         data[c] = [decode_value(v, eff[c + '_threshold']) for v in case['cols'][c]]
     df = pd.DataFrame(data)
     df['period'] = np.arange(len(df)) + 10
+    n = len(df)
+    kind = case.get('index', 'range')
+    if kind == 'offset':
+        df.index = pd.RangeIndex(5, 5 + n)
+    elif kind == 'repeated':               # as after flatten_dfs / concat of epoch tables without ignore_index
+        h = (n + 1) // 2
+        df.index = pd.Index(list(range(h)) + list(range(n - h)))
+    elif kind == 'reversed':
+        df.index = pd.Index(list(range(n))[::-1])
     return df
 
 
@@ -97,7 +106,7 @@ def check_synth(case, rec):
     if n:
         q[0] = q[-1] = False
     kept_and_removed = bool(got.any() and (q & ~got).any())
-    rec.label('threshold-equality' if equal else 'no-equality', 'nan-interior' if nan_interior else 'no-nan-interior',
+    rec.label('index:' + case.get('index', 'range'), 'threshold-equality' if equal else 'no-equality', 'nan-interior' if nan_interior else 'no-nan-interior',
               'kept+removed-runs' if kept_and_removed else 'no-mixed-runs', 'k:%s' % th.get('min_n_cycles', 'default'),
               'bursts' if got.any() else 'no-bursts', 'monotone-strictly-fewer' if (got & ~got2).any() else 'monotone-same')
     rec.nontrivial(equal or nan_interior or kept_and_removed)
@@ -153,7 +162,7 @@ def strat_synth(draw, tier):
     else:
         t = eff[which + '_threshold']
         th2[which + '_threshold'] = min(1.0, draw(st.sampled_from([t, math.nextafter(t, 2.0), t + 0.125, 1.0])))
-    return {'cols': cols, 'th': th, 'th2': th2}
+    return {'cols': cols, 'th': th, 'th2': th2, 'index': draw(st.sampled_from(['range', 'range', 'offset', 'repeated', 'repeated', 'reversed']))}
 
 
 @st.composite
